@@ -3,6 +3,7 @@
 From Coq Require Import List Bool Arith Reals Lra.
 Import ListNotations.
 From PS Require Import Num RLemmas Valid ModelKernels ModelFuncs ModelAPI Spec Lem_Lists.
+From PS Require Import Lem_API Lem_WF Lem_API2 Lem_API3 Lem_API4 Lem_API5 Lem_API7.
 Local Open Scope R_scope.
 
 (* the pairs generated from an index list are the pairs over POSITIONS looked up through the list *)
@@ -91,6 +92,20 @@ Proof. exact Lem_Findings.F10_auto_threshold_ignores_indices. Qed.
 Print Assumptions C14_auto_with_indices_refuted.
 
 (* non-vacuity: an admissible selection that is neither a prefix nor in order *)
+(* ---- from Lem_API7.v ---- *)
+Theorem C14_isi_multi_two_idx : forall eps cy m iv l i j ts te,
+  Forall (vtrain ts te) l -> iv_ok ts te iv -> (i < length l)%nat -> (j < length l)%nat ->
+  isi_distance_multi ROps eps cy false m iv l (Some [i; j])
+  = isi_distance_bi ROps eps cy false m iv (nth_train ROps l i) (nth_train ROps l j).
+Proof. exact isi_multi_two_idx. Qed.
+Print Assumptions C14_isi_multi_two_idx.
+Theorem C14_spike_multi_two_idx : forall eps cy m ri iv l i j ts te,
+  Forall (vtrain ts te) l -> iv_ok ts te iv -> (i < length l)%nat -> (j < length l)%nat ->
+  spike_distance_multi ROps eps cy false m ri iv l (Some [i; j])
+  = spike_distance_bi ROps eps cy false m ri iv (nth_train ROps l i) (nth_train ROps l j).
+Proof. exact spike_multi_two_idx. Qed.
+Print Assumptions C14_spike_multi_two_idx.
+
 Example C14_nonvacuous : check_indices 4 [3; 0; 2]%nat = true /\ pairs_of [3; 0; 2]%nat = [(3, 0); (3, 2); (0, 2)]%nat.
 Proof. split; reflexivity. Qed.
 
